@@ -293,6 +293,15 @@ class Model:
             ctx['maybe'].add(n)
             ctx['unsettled_overbuild'].add(n)      # it did turn out clean: an over-build owed to the single out-of-band round
             return self.run_script(n, ctx, 'unsettled-parallel:' + str(why))
+        if ctx.get('parallel') and ctx.get('start') is not None and self.obs_left(ctx, n) and n in ctx['start'].R and ctx['start'].R[n].built:
+            # parallel command: n came out clean only because, in this model's sequential order, a sibling had already dealt with
+            # what made it dirty (e.g. rebuilt a dependency that had failed last time, to the same checksum).  If n was definitely
+            # dirty in the state the command started from, a process that judged it before the sibling got there ran it: may-run.
+            st = ctx['start'].copy()
+            s0, why0 = st.status(n, st.new_ctx(keep=True), {})
+            if s0 == 'dirty':
+                ctx['maybe'].add(n)
+                return self.run_script(n, ctx, 'dirty-at-start:' + str(why0))
         # settled clean: an extra edge may still have changed while settling
         trig = self.extra_trigger(n, ctx)
         if trig and ctx['obs'] is not None and self.obs_left(ctx, n):
@@ -389,9 +398,6 @@ class Model:
         r.built = True
         r.built_run = self.run
         r.user_removed = False
-        if r.removed_mark:
-            r.removed_mark = False
-            r.removed_run = self.run
         depfail = who is None
         if who is not None:
             seen[p.chosen_do(n)] = self.ver(p.chosen_do(n))
@@ -436,6 +442,10 @@ class Model:
         if depfail or p.fails(n):
             r.failed = True
             return False
+        if r.removed_mark:
+            # (a failed attempt leaves the file missing: redo goes on treating the target as changed until a build succeeds)
+            r.removed_mark = False
+            r.removed_run = self.run
         r.always = bool(t.get('always'))
         r.failed = False
         r.owner = 'redo'
@@ -538,6 +548,7 @@ class Model:
         ctx['obsn'] = obsn
         ctx['start'] = start
         ctx['abort_mode'] = abort_mode
+        ctx['parallel'] = parallel
         self.cur_ctx = ctx
         allok = True
         failed_known = False
